@@ -81,20 +81,21 @@ theorem gc_step (s : St) (e : Nat) (es : List Nat) (h : s.autoChan = e :: es) :
 
 theorem gc_idle (s : St) (h : s.autoChan = []) : doGc s = s := by simp [doGc, h]
 
-/-- Despawning the reactor drops its system state and everything it captured (the canary), unless the callback is
-    currently taken (then the runner drops it after the run). -/
+/-- Despawning the reactor drops its system state and everything it captured (the canary — for a system made from a
+    zero-sized function item there is nothing to see, `canaryEv` is then a ghost event), unless the callback is currently
+    taken (then the runner drops it after the run). -/
 theorem despawn_drops_state (s : St) (e : Nat) (h : s.storage e = some true) :
-    Ev.canary e ∈ (kill s e).trace ∧ (kill s e).storage e = none := by
+    canaryEv s e ∈ (kill s e).trace ∧ (kill s e).storage e = none := by
   refine ⟨?_, by simp [kill_storage]⟩
-  have hc : Ev.canary e ∈ (killCanary s e).trace := by simp [killCanary, h, St.emit]
-  have mono : ∀ (t : St), Ev.canary e ∈ t.trace → Ev.canary e ∈ (killData t e).trace := by
+  have hc : canaryEv s e ∈ (killCanary s e).trace := by simp [killCanary, h, St.emit]
+  have mono : ∀ (t : St), canaryEv s e ∈ t.trace → canaryEv s e ∈ (killData t e).trace := by
     intro t ht
     unfold killData
     split
     · dsimp only; split <;> simp [St.emit, ht]
     · exact ht
   simp only [kill]
-  show Ev.canary e ∈ (killData _ e).trace
+  show canaryEv s e ∈ (killData _ e).trace
   apply mono
   simpa using hc
 
